@@ -36,15 +36,6 @@ Inductive res (A : Type) := Ok (a : A) | Er (e : string).
 Arguments Ok {A} a.
 Arguments Er {A} e.
 
-Fixpoint mapM {A B} (f : A -> res B) (l : list A) : res (list B) :=
-  match l with
-  | [] => Ok []
-  | x :: l' => match f x with
-               | Er e => Er e
-               | Ok y => match mapM f l' with Er e => Er e | Ok ys => Ok (y :: ys) end
-               end
-  end.
-
 Fixpoint filtermap {A B} (f : A -> option B) (l : list A) : list B :=
   match l with
   | [] => []
@@ -132,10 +123,9 @@ Definition guess_format (filename : bytes) : fmt :=
 (* ---------- export.py: _export_iter_entries ---------- *)
 Definition dot_bzr : bytes := [46;98;122;114].
 
-(* tree.is_special_path: InventoryTree -> path.startswith(".bzr");
-   ContentFilterTree inherits Tree.is_special_path -> False *)
-Definition is_special_path (filtered : bool) (p : bytes) : bool :=
-  if filtered then false else prefixb dot_bzr p.
+(* tree.is_special_path: InventoryTree -> path.startswith(".bzr"); ContentFilterTree
+   delegates to its backing tree (since cf2f70e) *)
+Definition is_special_path (p : bytes) : bool := prefixb dot_bzr p.
 
 (*  if subdir == "": subdir = None
     if subdir is not None: subdir = subdir.rstrip("/")  *)
@@ -148,10 +138,10 @@ Definition norm_subdir (sd : option bytes) : option bytes :=
 (* the loop body; [sd] is the normalised subdir.  skip_special is True at all
    three call sites; tree.has_filename(path) is True for every inventory path
    of a RevisionTree (and ContentFilterTree delegates it). *)
-Definition iter1 (filtered : bool) (sd : option bytes) (e : entry) : option (bytes * entry) :=
+Definition iter1 (sd : option bytes) (e : entry) : option (bytes * entry) :=
   let path := e_path e in
   if is_empty path then None
-  else if is_special_path filtered path then None
+  else if is_special_path path then None
   else match sd with
        | Some s =>
            if bytes_eqb path s then
@@ -165,28 +155,23 @@ Definition iter1 (filtered : bool) (sd : option bytes) (e : entry) : option (byt
        | None => Some (path, e)
        end.
 
-Definition export_iter_entries (filtered : bool) (subdir : option bytes) (es : list entry)
+Definition export_iter_entries (subdir : option bytes) (es : list entry)
   : list (bytes * entry) :=
-  filtermap (iter1 filtered (norm_subdir subdir)) es.
+  filtermap (iter1 (norm_subdir subdir)) es.
 
 (* ---------- tree accessors as seen through ContentFilterTree ---------- *)
-Definition NotImpl : string := "NotImplementedError".
-
-(* get_file_text: ContentFilterTree applies the writers of the path's filter stack *)
+(* get_file_text: ContentFilterTree applies the writers of the path's filter stack;
+   is_executable, get_symlink_target, get_file_mtime, is_versioned, is_special_path
+   are delegated to the backing tree *)
 Definition file_text (filtered : bool) (e : entry) : bytes :=
   if filtered && e_filt e then writer Crlf (e_content e) else e_content e.
 
-(* force_mtime if not None else tree.get_file_mtime(path)
-   (ContentFilterTree does not implement get_file_mtime) *)
-Definition mtime_of (filtered : bool) (force : option Z) (e : entry) : res Z :=
+(* force_mtime if not None else tree.get_file_mtime(path) *)
+Definition mtime_of (force : option Z) (e : entry) : Z :=
   match force with
-  | Some t => Ok t
-  | None => if filtered then Er NotImpl else Ok (e_mtime e)
+  | Some t => t
+  | None => e_mtime e
   end.
-
-(* tree.get_symlink_target (ContentFilterTree does not implement it) *)
-Definition symlink_target (filtered : bool) (e : entry) : res bytes :=
-  if filtered then Er NotImpl else Ok (e_target e).
 
 (* ---------- archive/tar.py ---------- *)
 Inductive ttype := TReg | TDir | TSym.
@@ -197,83 +182,62 @@ Definition M755 : Z := 493.
 Definition M644 : Z := 420.
 
 Definition prepare_tarball_item (filtered : bool) (root : bytes) (force : option Z)
-           (fe : bytes * entry) : res titem :=
-  let (final_path, e) := fe in
+           (fe : bytes * entry) : titem :=
+  let final_path := fst fe in
+  let e := snd fe in
   let filename := pathjoin root final_path in
-  match mtime_of filtered force e with
-  | Er x => Er x
-  | Ok mt =>
-      match e_kind e with
-      | KFile => Ok (mkT filename TReg (if e_exec e then M755 else M644) (file_text filtered e) [] mt)
-      | KDir => Ok (mkT (filename ++ [SL]) TDir M755 [] [] mt)
-      | KLink => match symlink_target filtered e with
-                 | Er x => Er x
-                 | Ok tg => Ok (mkT filename TSym M755 [] tg mt)
-                 end
-      end
+  let mt := mtime_of force e in
+  match e_kind e with
+  | KFile => mkT filename TReg (if e_exec e then M755 else M644) (file_text filtered e) [] mt
+  | KDir => mkT (filename ++ [SL]) TDir M755 [] [] mt
+  | KLink => mkT filename TSym M755 [] (e_target e) mt
   end.
 
-(* tarball_generator: the members handed to TarFile.addfile, in order *)
+(* tarball_generator: the members handed to TarFile.addfile, in order
+   (tgz/tbz2/txz/tlzma only wrap the stream; tgz_generator's gzip-header mtime is not observed) *)
 Definition tarball_items (filtered : bool) (root : bytes) (subdir : option bytes)
-           (force : option Z) (es : list entry) : res (list titem) :=
-  mapM (prepare_tarball_item filtered root force) (export_iter_entries filtered subdir es).
+           (force : option Z) (es : list entry) : list titem :=
+  map (prepare_tarball_item filtered root force) (export_iter_entries subdir es).
 
 (* ---------- archive/zip.py ---------- *)
 Record zitem := mkZ { z_name : bytes; z_attr : Z; z_content : bytes; z_mtime : Z }.
 
-Definition FILE_ATTR : Z := 27557888.   (* stat.S_IFREG | (0o644 << 16) = 0x1A48000 *)
-Definition DIR_ATTR : Z := 32325648.    (* stat.S_IFDIR | (1 << 4) | (0o755 << 16) = 0x1ED4010 *)
+Definition FILE_ATTR : Z := 27557888.       (* stat.S_IFREG | (0o644 << 16) = 0x1A48000 *)
+Definition EXEC_FILE_ATTR : Z := 32342016.  (* stat.S_IFREG | (0o755 << 16) = 0x1ED8000 (since 552504a) *)
+Definition DIR_ATTR : Z := 32325648.        (* stat.S_IFDIR | (1 << 4) | (0o755 << 16) = 0x1ED4010 *)
 Definition dot_lnk : bytes := [46;108;110;107].
 
 Definition zip_item (filtered : bool) (root : bytes) (force : option Z)
-           (fe : bytes * entry) : res zitem :=
-  let (dp, e) := fe in
-  match mtime_of filtered force e with
-  | Er x => Er x
-  | Ok mt =>
-      let filename := pathjoin root dp in
-      match e_kind e with
-      | KFile => Ok (mkZ filename FILE_ATTR (file_text filtered e) mt)
-      | KDir => Ok (mkZ (filename ++ [SL]) DIR_ATTR [] mt)
-      | KLink => match symlink_target filtered e with
-                 | Er x => Er x
-                 | Ok tg => Ok (mkZ (filename ++ dot_lnk) FILE_ATTR tg mt)
-                 end
-      end
+           (fe : bytes * entry) : zitem :=
+  let dp := fst fe in
+  let e := snd fe in
+  let mt := mtime_of force e in
+  let filename := pathjoin root dp in
+  match e_kind e with
+  | KFile => mkZ filename (if e_exec e then EXEC_FILE_ATTR else FILE_ATTR) (file_text filtered e) mt
+  | KDir => mkZ (filename ++ [SL]) DIR_ATTR [] mt
+  | KLink => mkZ (filename ++ dot_lnk) FILE_ATTR (e_target e) mt
   end.
 
 Definition zip_items (filtered : bool) (root : bytes) (subdir : option bytes)
-           (force : option Z) (es : list entry) : res (list zitem) :=
-  mapM (zip_item filtered root force) (export_iter_entries filtered subdir es).
+           (force : option Z) (es : list entry) : list zitem :=
+  map (zip_item filtered root force) (export_iter_entries subdir es).
 
 (* ---------- export.py: dir_exporter_generator ---------- *)
-(* what ends up below [dest], in creation order of the first loop (files are
-   written afterwards, at the slot where they were queued); [root] is unused *)
+(* what ends up below [dest]: directories and symlinks are created in the first loop, files are
+   queued there and written afterwards (mode from is_executable, then os.utime with force_mtime
+   or tree.get_file_mtime); [root] is unused *)
 Record ditem := mkD {
   d_path : bytes; d_kind : kind; d_exec : bool; d_content : bytes; d_target : bytes;
   d_mtime : option Z (* os.utime is applied to regular files only *) }.
 
-Definition dir_first_pass (filtered : bool) (fe : bytes * entry) : res ditem :=
-  let (dp, e) := fe in
+Definition dir_item (filtered : bool) (force : option Z) (fe : bytes * entry) : ditem :=
+  let dp := fst fe in
+  let e := snd fe in
   match e_kind e with
-  | KFile => Ok (mkD dp KFile (e_exec e) (file_text filtered e) [] None)
-  | KDir => Ok (mkD dp KDir false [] [] None)
-  | KLink => match symlink_target filtered e with
-             | Er x => Er x
-             | Ok tg => Ok (mkD dp KLink false [] tg None)
-             end
-  end.
-
-(* the second loop: write each queued file (mode from is_executable), then os.utime with
-   force_mtime or tree.get_file_mtime *)
-Definition dir_final (filtered : bool) (force : option Z) (fe : bytes * entry) : res ditem :=
-  let (dp, e) := fe in
-  match e_kind e with
-  | KFile => match mtime_of filtered force e with
-             | Er x => Er x
-             | Ok t => Ok (mkD dp KFile (e_exec e) (file_text filtered e) [] (Some t))
-             end
-  | _ => dir_first_pass filtered fe
+  | KFile => mkD dp KFile (e_exec e) (file_text filtered e) [] (Some (mtime_of force e))
+  | KDir => mkD dp KDir false [] [] None
+  | KLink => mkD dp KLink false [] (e_target e) None
   end.
 
 Inductive dest_state := DAbsent | DEmpty | DNonEmpty.
@@ -282,12 +246,7 @@ Definition dir_items (filtered : bool) (subdir : option bytes) (force : option Z
            (pre : dest_state) (es : list entry) : res (list ditem) :=
   match pre with
   | DNonEmpty => Er "BzrError"          (* Can't export tree to non-empty directory *)
-  | _ =>
-      let sel := export_iter_entries filtered subdir es in
-      match mapM (dir_first_pass filtered) sel with
-      | Er x => Er x                    (* raised while creating directories and symlinks *)
-      | Ok _ => mapM (dir_final filtered force) sel
-      end
+  | _ => Ok (map (dir_item filtered force) (export_iter_entries subdir es))
   end.
 
 (* ---------- export.py: export ---------- *)
@@ -304,15 +263,8 @@ Definition export (es : list entry) (format : option fmt) (dest : bytes) (root s
   let force := if per_file_timestamps then None else Some (if filtered then now else rev_ts) in
   match format with
   | FDir => match dir_items filtered subdir force pre es with Er x => Er x | Ok l => Ok (OutDir l) end
-  | FZip => match zip_items filtered root subdir force es with Er x => Er x | Ok l => Ok (OutZip l) end
-  | FTgz =>
-      (* tgz_generator computes the gzip header's mtime first: force_mtime, else the revision's
-         timestamp, else tree.is_versioned("") ... which ContentFilterTree does not implement *)
-      match force, filtered with
-      | None, true => Er NotImpl
-      | _, _ => match tarball_items filtered root subdir force es with Er x => Er x | Ok l => Ok (OutTar FTgz l) end
-      end
-  | f => match tarball_items filtered root subdir force es with Er x => Er x | Ok l => Ok (OutTar f l) end
+  | FZip => Ok (OutZip (zip_items filtered root subdir force es))
+  | f => Ok (OutTar f (tarball_items filtered root subdir force es))
   end.
 
 (* ======================= specification ======================= *)
